@@ -64,15 +64,14 @@ func (a *Aggregate) Aggregate(message string) error {
 		set.Samples += samples
 	}
 
-	// Merge data from group into global group.
-	isMerged, err := a.globalGroup.MergeNoblock(a.query, a.group)
-	if err != nil {
+	// Merge data from group into global group. This waits for a concurrent merge
+	// or result report to finish, a skipped merge of the last message of a
+	// server would never be made up for.
+	if err := a.globalGroup.Merge(a.query, a.group); err != nil {
 		panic(err)
 	}
-	if isMerged {
-		// Re-init local group (make it empty again).
-		a.group.InitSet()
-	}
+	// Re-init local group (make it empty again).
+	a.group.InitSet()
 	return nil
 }
 
